@@ -333,3 +333,25 @@ def phase2_c16(wd, header, sr):
         if a != b:
             viol.append((cl, r, o, "a budget that is not exhausted changes the result (budgeted vs unbounded differ)", tl))
     return viol
+
+
+def twins_c15(cl, c):
+    """(X with -optimize-basic-latin, X without): the same parser but for the class lookup tables"""
+    if not c["b"]:
+        return []
+    t = cl.split(" ")
+    t2 = list(t)
+    t2[5] = "0"
+    # drop the tables: every cls node ends with its BL token (128 chars of 0/1)
+    t2 = ["-" if (len(x) == 128 and set(x) <= {"0", "1"}) else x for x in t2]
+    return [(twin_id(" ".join(t2), 1), "basic-latin-pair")]
+
+
+def rel_c15(cl, tl, rel, ra, rb):
+    a = ra["raw"].split(" ", 2)[2]
+    b = rb["raw"].split(" ", 2)[2]
+    if a != b:
+        fa = (ra["kind"], repr(ra["val"]), tuple(ra["errs"]), ra["off"])
+        fb = (rb["kind"], repr(rb["val"]), tuple(rb["errs"]), rb["off"])
+        return ("viol", "with table: %r  general path: %r" % (fa, fb) if fa != fb else "results differ in bookkeeping fields")
+    return None
